@@ -744,6 +744,13 @@ func definitionRegistryTables(c *core.Ctx, r *core.Report, rule3, rule72 string)
 				build := func() (absint.Oracle, []absint.Value, []absint.Value) {
 					keys = nil
 					t := newTbl(c)
+					if rng != nil {
+						t.callee[rng] = func(ip *absint.Interp, a []absint.Value) absint.Value {
+							keys = append(keys, "<scan of all definitions>")
+							ip.CallValue(a[len(a)-1], absint.NewTok("otherKey", "key"), absint.NewTok("Decoy", "meta"))
+							return nil
+						}
+					}
 					t.callee[load] = func(ip *absint.Interp, a []absint.Value) absint.Value {
 						keys = append(keys, absint.Show(a[1]))
 						if hit {
